@@ -173,7 +173,8 @@ fn recover<K: TestKey>(args: &Args) -> i32 {
     let out = args.get("out").expect("--out").to_string();
     let n_ops = args.u64("n-ops", 3);
     let verify = !args.has("no-verify");
-    let cfg = config(n_ops, true, false, true, verify);
+    // a restart normally uses the configuration the store was created with
+    let cfg = config(n_ops, true, args.has("pre-create"), true, verify);
     let mut doc = J::obj();
     let write = |doc: &J| {
         std::fs::write(&out, doc.to_string()).expect("write dump");
